@@ -18,6 +18,7 @@
    and node.go:filterNodes after builder D1's repair (sorted unique by name). *)
 From Coq Require Import List Bool String Ascii Arith.
 From Verif Require Import Base.LockOrder.
+From Verif Require Select.Model.   (* read-only: labels_filter of builder D1's node-selection model *)
 Import ListNotations.
 Local Open Scope string_scope.
 
@@ -76,11 +77,12 @@ Fixpoint insert_uniq (x : string) (l : list string) : list string :=
 Definition sort_uniq (l : list string) : list string := fold_right insert_uniq [] l.
 
 (* ---------- store contents relevant to locking ---------- *)
-Record node := mkNode { n_name : string; n_pod : string; n_avail : bool }.
+Record node := mkNode { n_name : string; n_pod : string; n_avail : bool; n_labels : list (string * string) }.
 Record wl := mkWl { w_id : string; w_node : string }.
 Record lstore := mkStore { st_nodes : list node; st_wls : list wl }.
 Record nfilter := mkFilter {
-  f_pod : string; f_includes : list string; f_excludes : list string; f_all : bool }.
+  f_pod : string; f_includes : list string; f_excludes : list string; f_all : bool;
+  f_labels : list (string * string) }.
 
 Definition get_node (s : lstore) (name : string) : option node :=
   find (fun n => String.eqb (n_name n) name) (st_nodes s).
@@ -99,9 +101,10 @@ Fixpoint get_all {A} (get : string -> option A) (names : list string) : option (
 Definition mem_str (x : string) (l : list string) : bool := existsb (String.eqb x) l.
 
 (* store.GetNodesByPod: nodes of the pod (every pod when the name is empty),
-   down nodes skipped unless All; label filters are not modelled *)
+   nodes lacking one of the filter's labels skipped (utils.LabelsFilter), down nodes skipped unless All *)
 Definition nodes_by_pod (s : lstore) (f : nfilter) : list node :=
   filter (fun n => (String.eqb (f_pod f) "" || String.eqb (n_pod n) (f_pod f))
+                   && Verif.Select.Model.labels_filter (n_labels n) (f_labels f)
                    && (f_all f || n_avail n)) (st_nodes s).
 
 (* node.go:filterNodes (after the C21 repair): None = error *)
@@ -170,7 +173,7 @@ Definition gen_nodeop (n : node) : key := nodeop_key (n_pod n) (n_name n).
 Definition with_nodes_pod_locked s f body := with_nodes_locked s f gen_pod body.
 Definition with_nodes_op_locked s f body := with_nodes_locked s f gen_nodeop body.
 
-Definition one_node_filter (name : string) : nfilter := mkFilter "" [name] [] true.
+Definition one_node_filter (name : string) : nfilter := mkFilter "" [name] [] true [].
 Definition has_node (name : string) (ns : list node) : bool :=
   existsb (fun n => String.eqb (n_name n) name) ns.
 (* lock.go:withNodePodLocked / withNodeOperationLocked *)
@@ -180,10 +183,8 @@ Definition with_node_op_locked (s : lstore) (name : string) (body : M) : M :=
   with_nodes_op_locked s (one_node_filter name) (fun ns => if has_node name ns then body else ret true).
 
 (* lock.go:withWorkloadsLocked; [gone] = ids removed earlier in this thread.
-   Not modelled: when an attempt fails after several workload locks were taken,
-   doUnlockAll releases them in Go map order (the model releases LIFO); no
-   operation passes more than one id, and the harness does not inject lock
-   failures into multi-id calls of the helper. *)
+   Operations pass exactly one id, so nothing is held when the attempt fails; the
+   multi-id case (export hook only) is with_workloads_helper below. *)
 Definition with_workloads_locked (s : lstore) (gone : list string) (ignore_lock : bool)
     (ids : list string) (body : M) : M :=
   let ids' := sort_uniq ids in
@@ -194,6 +195,31 @@ Definition with_workloads_locked (s : lstore) (gone : list string) (ignore_lock 
   end.
 Definition with_workload_locked s gone ignore_lock id body :=
   with_workloads_locked s gone ignore_lock [id] body.
+
+(* withWorkloadsLocked called with SEVERAL ids (only through the export hook): when an
+   attempt fails, doUnlockAll finds len(order) <> len(locks) and releases the locks taken
+   so far in Go map order: [orc] is that order (an oracle; LIFO when it is not a
+   permutation of the keys held) *)
+Fixpoint is_perm (a b : list key) : bool :=
+  match a with
+  | [] => match b with [] => true | _ => false end
+  | k :: t => memb key_eqb k b && is_perm t (removeb key_eqb k b)
+  end.
+Definition release_order (orc acq : list key) : list key := if is_perm orc acq then orc else acq.
+Fixpoint with_keys_from_o (orc : list key) (keys acq : list key) (err : bool) : M := fun fl n =>
+  match keys with
+  | [] => mkRes (map Rel acq) n err []
+  | k :: ks =>
+      if fl k n then mkRes (AcqFail k :: map Rel (release_order (filter (fun x => memb key_eqb x acq) orc) acq)) (S n) true []
+      else let r := with_keys_from_o orc ks (k :: acq) err fl (S n) in
+           mkRes (Acq k :: r_evs r) (r_n r) (r_err r) (r_spawn r)
+  end.
+Definition with_workloads_helper (s : lstore) (ignore_lock : bool) (ids rel : list string) : M :=
+  let ids' := sort_uniq ids in
+  match get_all (get_wl s) ids' with
+  | None => ret true
+  | Some _ => if ignore_lock then ret false else with_keys_from_o (map wl_key rel) (map wl_key ids') [] false
+  end.
 
 (* RemapResourceAndLog: its own goroutine *)
 Definition remap_thread (s : lstore) (name : string) : M :=
@@ -241,7 +267,7 @@ Inductive op :=
 | ORemap (name : string)
 (* the two helpers called directly (export hook), with arbitrary arguments *)
 | OHelperNodes (f : nfilter) (node_op : bool)
-| OHelperWorkloads (ids : list string) (ignore_lock : bool).
+| OHelperWorkloads (ids : list string) (ignore_lock : bool) (rel : list string).   (* rel: release order on a failing attempt *)
 
 (* group ids by node, groups in first-occurrence order *)
 Fixpoint group_add (nd id : string) (g : list (string * list string)) : list (string * list string) :=
@@ -288,7 +314,7 @@ Definition op_main (s : lstore) (o : op) : list M :=
          (bind_ign (seq_all (map spawn_remap prepared))
                    (seq_all (map (fun nd => with_node_pod_locked s nd (ret false)) rollback)))]
   | OCapacity f => [with_nodes_pod_locked s f (fun _ => ret false)]
-  | ORemovePod pod => [with_nodes_pod_locked s (mkFilter pod [] [] true) (fun _ => ret false)]
+  | ORemovePod pod => [with_nodes_pod_locked s (mkFilter pod [] [] true []) (fun _ => ret false)]
   | ORemove order =>
       match group_by_node s order with
       | None => []
@@ -316,12 +342,12 @@ Definition op_main (s : lstore) (o : op) : list M :=
   | ORemoveNode name | ONodeResource name => [with_node_pod_locked s name (ret false)]
   | OPodResource pod =>
       map (fun n => with_node_pod_locked s (n_name n) (ret false))
-          (nodes_by_pod s (mkFilter pod [] [] false))
+          (nodes_by_pod s (mkFilter pod [] [] false []))
   | ORemap name => [remap_thread s name]
   | OHelperNodes f node_op =>
       [if node_op then with_nodes_op_locked s f (fun _ => ret false)
        else with_nodes_pod_locked s f (fun _ => ret false)]
-  | OHelperWorkloads ids ign => [with_workloads_locked s [] ign ids (ret false)]
+  | OHelperWorkloads ids ign rel => [with_workloads_helper s ign ids rel]
   end.
 
 Fixpoint run_indexed (i : nat) (ms : list M) (fls : nat -> key -> nat -> bool) : list res :=
@@ -422,5 +448,7 @@ Definition thread_ok_weak (evs : list lev) : bool :=
 Definition ok (c : case) : bool :=
   match c_op c with
   | OHelperNodes _ true => forallb thread_ok_weak (c_obs c)
+  | OHelperWorkloads _ _ _ =>      (* release order after a failing attempt is Go map order: not LIFO *)
+      forallb (fun evs => k_ordered evs && nodeop_alone evs && known_class evs) (c_obs c)
   | _ => forallb thread_ok (c_obs c)
   end.
